@@ -181,6 +181,8 @@ def recorded_on_every_exit(ctx, f, fld, src):
 
 
 def run(ctx):
+    from .C01 import configured_patterns
+    configured_patterns(ctx)      # an empty list item must not become CgroupPath(fs, "") - the root cgroup - in a detector's watched set
     integer_text_is_decimal(ctx, "C08")
     from .C18 import every_resolved_cgroup_is_returned
     every_resolved_cgroup_is_returned(ctx, "C08")      # a detector reads an empty result as 'watched value 0'
